@@ -604,7 +604,21 @@ def rule_intlog(repo, only=None):
     return r
 
 
-RULES = [rule_bounds, rule_nonefalsy, rule_frame, rule_fit, rule_helpers, rule_intlog]
+def rule_signal_slices(repo):
+    """sibling implementation of slicing: a slice of a Signal (incl. a slice of a slice) must name exactly the absolute bits and
+    reject bounds outside the (outer) slice -- shared with C09 (R-C09-slicekey)"""
+    from rules.c09 import rule_slicekey
+    return rule_slicekey(repo)
+
+
+def rule_rtlir_slices(repo):
+    """sibling implementation of slicing: the RTLIR type checker (whose result width and bound check decide the emitted
+    part-select) -- shared with C10 (R-C10-widthtable covers visit_Slice / visit_Index bound checks and widths)"""
+    from rules.c10 import rule_widthtable
+    return rule_widthtable(repo)
+
+
+RULES = [rule_bounds, rule_nonefalsy, rule_frame, rule_fit, rule_helpers, rule_intlog, rule_signal_slices, rule_rtlir_slices]
 
 
 def _m(name, old, new, rule=None, file=BITS, count=1):
